@@ -3494,7 +3494,10 @@ class Inflate(Array):
         lower, upper = self.func._intbounds
         # Entries of `dofmap` may coincide, in which case the corresponding
         # values of `func` are added.
-        n = util.product((length._intbounds[1] for length in self.dofmap.shape), 1)
+        if isinstance(self.dofmap, Constant) and numpy.unique(self.dofmap.value).size == self.dofmap.value.size:
+            n = 1
+        else:
+            n = util.product((length._intbounds[1] for length in self.dofmap.shape), 1)
         return min(lower and n and lower * n, 0), max(upper and n and upper * n, 0)
 
     def _argument_degree(self, argument):
